@@ -1515,3 +1515,129 @@ def elements(interp: Interp, obj: Term) -> List[Event]:
         elif e.kind == "store" and e.term[0] == "sub" and e.term[1] == obj:
             out.append(e)
     return out
+
+
+# ---------------------------------------------------------------------------------------------
+# back to syntax: the normal form of a value as a Python expression (for the AST-level recognisers)
+# ---------------------------------------------------------------------------------------------
+_OPS = {n: getattr(ast, n) for n in ("Add", "Sub", "Mult", "Div", "FloorDiv", "Mod", "Pow", "LShift", "RShift", "BitOr", "BitAnd", "BitXor",
+                                      "MatMult", "Eq", "NotEq", "Lt", "LtE", "Gt", "GtE", "Is", "IsNot", "In", "NotIn", "Not", "USub", "UAdd",
+                                      "Invert")}
+
+
+def term_to_ast(it: Interp, t: Term, depth: int = 0) -> ast.expr:
+    """A Python expression that denotes term t: locals are gone (copy propagation), helpers are inlined, comprehensions and
+    append-loops are comprehensions, loop elements are `_v<loop>` names.  Used to feed recognisers written over syntax
+    (aggfacts) with normalised code."""
+    cv = lambda x: term_to_ast(it, x, depth + 1)
+    if depth > 40:
+        return ast.Name(id="<deep>", ctx=ast.Load())
+    k = t[0]
+    if k == "const":
+        return ast.Constant(value=t[2])
+    if k in ("param", "name"):
+        return ast.Name(id=t[1], ctx=ast.Load())
+    if k == "attr":
+        return ast.Attribute(value=cv(t[1]), attr=t[2], ctx=ast.Load())
+    if k == "sub":
+        return ast.Subscript(value=cv(t[1]), slice=cv(t[2]), ctx=ast.Load())
+    if k == "slice":
+        return ast.Slice(lower=None if t[1] == NONE else cv(t[1]), upper=None if t[2] == NONE else cv(t[2]),
+                         step=None if t[3] == NONE else cv(t[3]))
+    if k == "call":
+        return ast.Call(func=cv(t[1]), args=[cv(x) for x in t[2]],
+                        keywords=[ast.keyword(arg=None if kk == "**" else kk, value=cv(v)) for kk, v in t[3]])
+    if k == "bin":
+        return ast.BinOp(left=cv(t[2]), op=_OPS[t[1]](), right=cv(t[3]))
+    if k == "un":
+        return ast.UnaryOp(op=_OPS[t[1]](), operand=cv(t[2]))
+    if k == "cmp":
+        return ast.Compare(left=cv(t[2]), ops=[_OPS[t[1]]()], comparators=[cv(t[3])])
+    if k == "bool":
+        return ast.BoolOp(op=ast.And() if t[1] == "and" else ast.Or(), values=[cv(x) for x in t[2]])
+    if k == "ifexp":
+        return ast.IfExp(test=cv(t[1]), body=cv(t[2]), orelse=cv(t[3]))
+    if k == "tuple":
+        return ast.Tuple(elts=[cv(x) for x in t[1]], ctx=ast.Load())
+    if k == "star":
+        return ast.Starred(value=cv(t[1]), ctx=ast.Load())
+    if k == "fstr":
+        vals = []
+        for x in t[1]:
+            if x[0] == "const":
+                vals.append(ast.Constant(value=x[2]))
+            else:
+                vals.append(ast.FormattedValue(value=cv(x[1]), conversion=x[2] if isinstance(x[2], int) else -1, format_spec=None))
+        return ast.JoinedStr(values=vals)
+    if k == "elem":
+        return ast.Name(id=f"_v{t[2]}", ctx=ast.Load())
+    if k == "idx":
+        return ast.Name(id=f"_i{t[1]}", ctx=ast.Load())
+    if k in ("key", "val"):
+        return ast.Name(id=f"_{k[0]}{t[2]}", ctx=ast.Load())
+    if k == "lam":
+        c = it.closures[t[1]]
+        if isinstance(c.node, ast.Lambda):
+            import copy as _copy
+            return _copy.deepcopy(c.node)
+        return ast.Name(id=f"_closure{t[1]}", ctx=ast.Load())
+    if k == "obj":
+        o = it.objs[t[1]]
+        if o.kind in ("list", "set", "dict") and isinstance(o.node, (ast.List, ast.Set, ast.Dict)) and not it._mutated(t):
+            if o.kind == "list":
+                return ast.List(elts=[cv(x) for x in o.init], ctx=ast.Load())
+            if o.kind == "set":
+                return ast.Set(elts=[cv(x) for x in o.init]) if o.init else ast.Call(func=ast.Name(id="set", ctx=ast.Load()), args=[], keywords=[])
+            return ast.Dict(keys=[cv(x[1][0]) if x[0] == "tuple" else None for x in o.init],
+                            values=[cv(x[1][1]) if x[0] == "tuple" else cv(x[1]) for x in o.init])
+        if isinstance(o.node, ast.Call) and not it._mutated(t):
+            return ast.Call(func=ast.Name(id=o.kind, ctx=ast.Load()), args=[cv(x) for x in o.init], keywords=[])
+        se = single_element(it, t)
+        if se is not None and se[0]:
+            lps, extra, val, ev = se
+            gens = []
+            for L in lps:
+                lp = it.loops[L]
+                src = lp.iter
+                tgt: ast.expr = ast.Name(id=f"_v{L}", ctx=ast.Store())
+                if lp.range is not None or (src is not None and src[0] == "call" and src[1] == ("name", "enumerate")):
+                    tgt = ast.Name(id=f"_i{L}", ctx=ast.Store()) if lp.range is not None else \
+                        ast.Tuple(elts=[ast.Name(id=f"_i{L}", ctx=ast.Store()), ast.Name(id=f"_v{L}", ctx=ast.Store())], ctx=ast.Store())
+                if lp.domain is not None and lp.domain[0] != "tuple" and lp.range is None and src is not None and src[0] == "call" \
+                        and src[1] != ("name", "enumerate"):
+                    src = lp.domain
+                gens.append(ast.comprehension(target=tgt, iter=cv(src) if src is not None else ast.Name(id="<iter>", ctx=ast.Load()),
+                                              ifs=[], is_async=0))
+            # all extra conditions on the innermost generator (pure filters)
+            for c, pol in ev.conds[len(o.conds):]:
+                gens[-1].ifs.append(cv(c if pol else negate(c)))
+            # elements of the iterated sequence are named after the loop: rewrite ('elem', iter, L) handled by cv
+            if o.kind == "dictcomp" and val[0] == "tuple" and len(val[1]) == 2:
+                return ast.DictComp(key=cv(val[1][0]), value=cv(val[1][1]), generators=gens)
+            node_cls = {"genexp": ast.GeneratorExp, "setcomp": ast.SetComp}.get(o.kind, ast.ListComp)
+            return node_cls(elt=cv(val), generators=gens)
+        return ast.Name(id=f"_obj{t[1]}", ctx=ast.Load())
+    if k == "first":
+        return ast.Name(id=f"_first{t[1]}", ctx=ast.Load())
+    if k in ("loopvar", "after"):
+        return ast.Name(id=f"_{t[1]}_{k}{t[2]}", ctx=ast.Load())
+    return ast.Name(id=f"<{k}>", ctx=ast.Load())
+
+
+def normalised_function(it: Interp, returns: Optional[List[Event]] = None, name: str = "normal_form") -> ast.FunctionDef:
+    """A synthetic function `def f(): if <guard>: return a ... return z` built from the return events of the analysed function
+    (guard = the last condition of each non-final return): the normal form of a pure, value-returning function."""
+    rets = returns if returns is not None else [e for e in it.events if e.kind == "return" and e.depth == 0]
+    body: List[ast.stmt] = []
+    for i, e in enumerate(rets):
+        val = ast.Return(value=term_to_ast(it, e.term))
+        if i < len(rets) - 1 and e.conds:
+            c, pol = e.conds[-1]
+            test = term_to_ast(it, c if pol else negate(c))
+            body.append(ast.If(test=test, body=[val], orelse=[]))
+        else:
+            body.append(val)
+    fn = ast.FunctionDef(name=name, args=ast.arguments(posonlyargs=[], args=[], kwonlyargs=[], kw_defaults=[], defaults=[]),
+                         body=body or [ast.Pass()], decorator_list=[], returns=None, type_comment=None)
+    fn.lineno = getattr(it.func.node, "lineno", 1)
+    return ast.fix_missing_locations(fn)
